@@ -56,7 +56,7 @@ func runC17(c *fw.Ctx) {
 	deeperBounds(!c.Quick())
 	for _, shape := range Shapes(0, c.Pick(4, 6), 3) {
 		for _, lr := range c17LRs {
-			for src := 0; src < 10; src++ {
+			for src := 0; src < 11; src++ {
 				shape, lr, src := shape, lr, src
 				c.Case(func(k *fw.K) { c17Case(k, shape, lr, src) })
 			}
@@ -119,6 +119,23 @@ func c17Weight(k *fw.K, shape []int, src int) (w tensor.Tensor, what string, err
 	}
 	defer func() { what += prov }()
 	switch src {
+	case 10: // a gradient behind a mask: entries that are exactly 0 or negative (y = -(w * m) for a 0/1.. mask m), so that whole rows / blocks
+		// have a largest element of exactly 0 next to negative ones; and blocks that are zero throughout
+		cv := ref.Zeros(shape)
+		for i := range cv.Data {
+			if k.Rng.Intn(3) > 0 {
+				cv.Data[i] = -float64(1 + k.Rng.Intn(4))
+			}
+		}
+		if n := len(cv.Data); n >= 2 {
+			cv.Data[k.Rng.Intn(n)] = 0
+			cv.Data[k.Rng.Intn(n)] = -2
+		}
+		y, e := w.Mul(rt.MustLeaf(cv, false))
+		if e != nil {
+			return nil, "", e
+		}
+		return w, "gradient entries that are 0 or negative (largest element of a row exactly 0)", tensor.BackPropagate(y)
 	case 9: // a HUGE gradient (elements around 1e252): with a rate of 1e-250 the step is an ordinary number although the rate is far below
 		// every "is it zero" tolerance; with ordinary rates the step is huge but finite, with 1e150 it overflows - IEEE decides each
 		cv := Shuffled(k.Rng, Unique(k.Rng, shape, 0.5, 4))
@@ -319,7 +336,7 @@ func c17Case(k *fw.K, shape []int, lr lrSpec, src int) {
 		var w tensor.Tensor
 		var what string
 		var err error
-		if p := call(func() { w, what, err = c17Weight(k, shape, (src+round)%10) }); p != nil || err != nil {
+		if p := call(func() { w, what, err = c17Weight(k, shape, (src+round)%11) }); p != nil || err != nil {
 			k.Failf("building a weight with a gradient failed: panic=%v err=%v", p, err)
 			return
 		}
@@ -342,6 +359,12 @@ func c17Case(k *fw.K, shape []int, lr lrSpec, src int) {
 			k.Count("updates_after_the_gradient_tensor_was_re_armed_by_the_caller", 1)
 		}
 		slot = w
+		if k.Index%5 == 1 {
+			// the caller's own tensor type: a struct that embeds the library tensor (a named parameter). Every method is the embedded
+			// tensor's, so it is that tensor which is stepped; what Update leaves behind the pointer is the stepped tensor
+			slot = namedTensor{Tensor: w, name: "layer1.weight"}
+			k.Count("updates_of_a_caller_side_struct_embedding_the_tensor", 1)
+		}
 		ptr := &slot
 		stepper := opt
 		if round == 1 && k.Index%3 == 0 { // the second step goes through a VALUE COPY of the optimizer struct
@@ -383,6 +406,12 @@ func c17Case(k *fw.K, shape []int, lr lrSpec, src int) {
 			return
 		}
 	}
+}
+
+// namedTensor is a caller-side decoration of a library tensor.
+type namedTensor struct {
+	tensor.Tensor
+	name string
 }
 
 // sgdStepValue: got is w - lr*g as IEEE arithmetic gives it - the product rounded, then the difference rounded, or the
